@@ -6,7 +6,9 @@ import subprocess
 import coqrun
 import stages
 
-NAMES = ['go', 'enter_half_open', 'http_request', 'e1', 'a_1', 'g0_t2', 'Idle', 'HTTPServer', 'X1', 'set_thrust']
+# the core crate must treat names as opaque text: raw-identifier spellings (what `stringify!(r#try)` yields), camelCase,
+# a leading underscore and a non-ASCII letter are in the first six so that the quick tier has them
+NAMES = ['go', 'enter_half_open', 'r#try', 'fuelOK', '_x', 'ecoute_\u00e9', 'a_1', 'g0_t2', 'Idle', 'HTTPServer', 'X1', 'set_thrust', 'http_request', 'e1']
 
 
 def k4(ctx):
